@@ -597,6 +597,50 @@ def sh6(prog):
                                                      "that includes the literal on the root variable itself, which is then not conditioned "
                                                      "on" % (_key(c0)[:50], str(truth).lower()))
                         if ok_ is None:
+                            # the reason may be a private predicate (`cannot_occur(bdd, label)`): each way it can hold must be an
+                            # admissible reason — the diagram is constant, or the label is strictly before the root
+                            for c, v in facts:
+                                c0 = strip(c)
+                                truth = v in ("1", ("not", ("0",)))
+                                if not (mir.is_call(c0) and (c0[1].local or getattr(c0[1], "res_local", False)) and truth):
+                                    continue
+                                hs_ = [h_ for h_ in prog.resolve(c0[1]) if "{closure" not in h_.npath]
+                                if len(hs_) != 1 or hs_[0].terms.ret is None:
+                                    continue
+                                verdicts = []
+                                for hl, hf in _alts(hs_[0].terms, hs_[0].terms.ret):
+                                    hl0 = strip(hl)
+                                    if hl0[0] == "const" and hl0[2] == "0":
+                                        continue                      # an alternative on which the predicate is false
+                                    if hl0[0] == "const" and hl0[2] == "1":
+                                        # admissible when it is taken for a constant pointer: a variant test that excludes the nodes
+                                        cst = any(strip(c2)[0] == "discr" and not any(n_ in str(v2) for n_ in ("Reg", "Compl")) and
+                                                  (isinstance(v2, tuple) or str(v2) not in ("0", "1")) or
+                                                  (mir.is_call(strip(c2)) and strip(c2)[1].name in ("is_const", "is_true", "is_false"))
+                                                  for c2, v2 in hf)
+                                        # `PtrTrue | PtrFalse => true`: the variant fact names the two constant variants
+                                        vm_ = hs_[0].terms._discr_variants
+                                        for c2, v2 in hf:
+                                            if strip(c2)[0] == "discr":
+                                                names_ = vm_.get(c2) or vm_.get(strip(c2)) or {}
+                                                labs_ = list(v2[1]) if isinstance(v2, tuple) and v2 and v2[0] == "in" else [v2]
+                                                if names_ and all(names_.get(str(l_), "") in ("PtrTrue", "PtrFalse") for l_ in labs_):
+                                                    cst = True
+                                        verdicts.append(True if cst else None)
+                                    elif mir.is_call(hl0) and hl0[1].name == "lt" and len(hl0[2]) >= 3:
+                                        a_, b_ = _key(hl0[2][-2]), _key(hl0[2][-1])
+                                        # the label parameter first, the pointer's variable second: strictly before the root
+                                        verdicts.append(True if (".var" in b_ or "var(" in b_) and ".var" not in a_ else None)
+                                    elif mir.is_call(hl0) and hl0[1].name == "lte":
+                                        verdicts.append(False)
+                                    else:
+                                        verdicts.append(None)
+                                if verdicts and all(x is True for x in verdicts):
+                                    ok_ = True
+                                elif any(x is False for x in verdicts):
+                                    ok_ = False
+                                    skip_errs.append("a literal is passed over under `%s`, which also holds when its variable is the root's" % _key(c0)[:40])
+                        if ok_ is None:
                             skip_errs.append("?a literal is passed over for a reason that is not read here")
                 if other or not n_skip:
                     errs.append("?the loop-carried diagram is not updated by the conditioning step alone")
